@@ -92,8 +92,8 @@ class OwnedEvent:
             return self.real.wait(timeout)
         if self.real.is_set():
             return True
-        if timeout is not None and s.timeout_fires("Event.wait"):
-            return False
+        if timeout is not None:
+            return s.timed_block(self.real.is_set, "Event.wait")
         s.block_until(self.real.is_set, "Event.wait")
         return True
 
@@ -158,8 +158,8 @@ class OwnedCondition:
         mine = self.ticket
         fired = False
         try:
-            if self.woken < mine and timeout is not None and s.timeout_fires("Condition.wait"):
-                fired = True
+            if timeout is not None:
+                fired = not s.timed_block(lambda: self.woken >= mine, "Condition.wait")
             else:
                 s.block_until(lambda: self.woken >= mine, "Condition.wait")
         finally:
@@ -205,10 +205,60 @@ class ThreadRec:
         self.alive = False
         self.started = False
         self.thread = None
+        self.owned = False        # created by the code under test (threading.Thread), not by the harness
+        self.sleeping = False
+        self.wake = None
+
+
+class WakeAction:
+    """time passing for a thread of the code under test that sleeps (time.sleep): an action of the
+    environment, like a client's; taking it hands the baton to the woken thread at once.  At most
+    ``left`` wake-ups per thread and execution (a polling loop never goes quiescent by itself)."""
+
+    def __init__(self, rec, left=2):
+        self.rec = rec
+        self.name = "wake:%s" % rec.name
+        self.left = left
+        self.run_now = rec
+
+    def enabled(self):
+        return self.rec.alive and self.rec.sleeping and self.left > 0
+
+    def step(self):
+        self.left -= 1
+        self.rec.sleeping = False
+
+    def progress(self):
+        return (self.left, self.rec.sleeping)
+
+
+class TimerAction:
+    """the time limit of a timed wait (Event.wait(t), Condition.wait(t)) running out: an action of the
+    environment that may be taken at any later scheduling point while the thread still waits - not
+    only at the moment the wait begins.  ``Sched.timer_budget`` firings per execution."""
+
+    def __init__(self, sched, rec, label):
+        self.s = sched
+        self.rec = rec
+        self.name = "timer:%s:%s" % (rec.name, label)
+        self.fired = False
+        self.done = False
+        self.run_now = rec
+
+    def enabled(self):
+        return self.rec.alive and not self.fired and not self.done and self.s.timer_budget > 0
+
+    def step(self):
+        self.fired = True
+        self.s.timer_budget -= 1
+
+    def progress(self):
+        return (self.fired, self.done)
 
 
 class Sched:
     def __init__(self, ctx, max_points=3000):
+        self.timer_budget = 2
         self.ctx = ctx
         self.threads = []
         self.actions = []
@@ -304,6 +354,39 @@ class Sched:
         self._reschedule(label, me)
         me.blocked = None
 
+    def timed_block(self, cond, label):
+        """wait for cond with a time limit; True if cond came true, False if the time ran out"""
+        if self.abort:
+            raise SchedAbort()
+        if cond():
+            return True
+        if self.free_running or self.ctx is None:
+            self.block_until(cond, label)
+            return True
+        me = self.current
+        t = TimerAction(self, me, label)
+        self.actions.append(t)
+        try:
+            self.block_until(lambda: t.fired or cond(), label)
+        finally:
+            t.done = True
+        return bool(cond())
+
+    def sleep_point(self, label="sleep"):
+        """time.sleep in a thread the code under test started: the thread gives the baton up until
+        the environment lets time pass (WakeAction).  In the server's own thread sleeping stays a
+        no-op (nothing else of the manager could run meanwhile but what the clients do anyway)."""
+        me = self.current
+        if me is None or not me.owned:
+            return
+        if self.abort:
+            raise SchedAbort()
+        if me.wake is None:
+            me.wake = WakeAction(me)
+            self.actions.append(me.wake)
+        me.sleeping = True
+        self.block_until(lambda: not me.sleeping, label)
+
     def _enabled(self, rec):
         return rec.alive and rec.started and (rec.blocked is None or rec.blocked())
 
@@ -348,7 +431,10 @@ class Sched:
             self.trace.append((label, kind, getattr(obj, "name", "?")))
             if kind == "action":
                 obj.step()
-                continue
+                nxt = getattr(obj, "run_now", None)
+                if nxt is None or nxt is me or not self._enabled(nxt):
+                    continue
+                kind, obj = "thread", nxt
             if obj is me:
                 return
             # hand the baton over
@@ -389,8 +475,8 @@ class FakeEvent:
         return self.flag
 
     def wait(self, timeout=None):
-        if timeout is not None and not self.flag and self.s.timeout_fires("Event.wait"):
-            return False
+        if timeout is not None:
+            return self.s.timed_block(lambda: self.flag, "Event.wait")
         self.s.block_until(lambda: self.flag, "Event.wait")
         return True
 
@@ -498,8 +584,8 @@ class FakeCondition:
         mine = self.ticket
         fired = False
         try:
-            if timeout is not None and self.woken < mine and s.timeout_fires("Condition.wait"):
-                fired = True
+            if timeout is not None:
+                fired = not s.timed_block(lambda: self.woken >= mine, "Condition.wait")
             else:
                 s.block_until(lambda: self.woken >= mine, "Condition.wait")
         finally:
@@ -562,6 +648,7 @@ class FakeThreadingModule:
 
             def start(self):
                 self._rec = s.new_thread(self.run, "%s%d" % (self.name, len(s.threads)))
+                self._rec.owned = True
                 s.start_thread(self._rec)
                 s.yield_point("Thread.start")
 
